@@ -378,3 +378,34 @@ m('M31f', 'C12', 'C12.heap-discipline', 'scheduler.h',
   "        return a._tp > b._tp;", "        return a._tp < b._tp;", 'max-heap instead of min-heap')
 m('M31g', 'C12', 'C12.interval-cancel', 'scheduler.h',
   "                waiter << [&]{return this->sleep_until(next, &tag);};", "                waiter << [&]{return this->sleep_until(next, &counter);};", 'sleep under another identifier')
+m('M39', 'C16', 'C16.wake-outside-lock', 'publisher.h',
+  """             auto wk = std::move(_wakeup_buffer);
+             lk.unlock();
+             for (awaiter *x: wk) x->resume();
+             lk.lock();""", """             auto wk = std::move(_wakeup_buffer);
+             for (awaiter *x: wk) x->resume();""", 'resume under the lock')
+m('M40', 'C16', 'C16.close-wakes-all', 'publisher.h',
+  """            _closed = true;
+            push_lk(lk,0);""", """            _closed = true;""", 'close does not wake')
+m('M40b', 'C16', 'C16.close-wakes-all', 'publisher.h',
+  """                         _wakeup_buffer.push_back(x._awt);
+                         x._awt = nullptr;""", """                         _wakeup_buffer.push_back(x._awt);""", 'parked awaiter not cleared (woken twice)')
+m('M40c', 'C16', 'C16.advance-before-read', 'publisher.h',
+  """            if (l._pos+1 == _pos && !_closed) return false;
+            switch (t) {
+                default:
+                case subscribtion_type::all_values:
+                    l._pos++;
+                    break;""", """            if (l._pos+1 == _pos && !_closed) return false;
+            switch (t) {
+                default:
+                case subscribtion_type::all_values:
+                    break;""", 'all_values does not advance')
+m('M40d', 'C16', 'C16.close-wakes-all', 'publisher.h',
+  """                iter->_awt = nullptr;
+                iter->_kicked =true;""", """                iter->_awt = nullptr;""", 'kick does not mark')
+m('M40e', 'C16', 'C16.subscriber-protocol', 'publisher.h',
+  """    ~subscriber() {
+        _q->leave(_h);
+    }""", """    ~subscriber() {
+    }""", 'subscriber never leaves')
